@@ -31,6 +31,7 @@ RULE = ('pool of 23 files: uamiv, lateral boundary, bpch, ICARTT, netCDF, '
         'children of a pristine helper process) and followed by every pool '
         'file as probe. evaluations = probe opens; non-trivial = history is '
         'non-empty; distinct = digest of (history, probe).')
+RULE += (" Events also include re-registration, opens with reader keywords (endian='little' among them) and opens by relative name from a private working directory whose content changes between events (32 event tokens in all).")
 ASSUMPTIONS = [
     'every (history, probe) pair runs in a fork()ed child of a helper '
     'process that has imported the library and never opened a file, so the '
